@@ -136,7 +136,8 @@ def gen_session(seed, i, tier, special=None):
         plan.append("mmaps %d" % rng.choice([26, 40, 200]))
     final_nl = not rng.chance(1, 5)
     cut = rng.range(1, len(forms)) if rng.chance(1, 2) else None
-    return {"i": i, "dialect": dialect, "special": special, "forms": forms, "chunks": chunks, "plan": plan, "final_nl": final_nl, "cut": cut, "files": aux}
+    midcut = (rng.below(1 << 30), rng.below(1 << 30)) if rng.chance(1, 3) else None
+    return {"i": i, "dialect": dialect, "special": special, "forms": forms, "chunks": chunks, "plan": plan, "final_nl": final_nl, "cut": cut, "midcut": midcut, "files": aux}
 
 
 def judge_session(binfo, scratch, s):
@@ -208,6 +209,27 @@ def judge_session(binfo, scratch, s):
             want = expected_events(forms[:k])
             if events(e.out) != want:
                 viol.append(("prefix", "input ended after form %d: events %s, expected %s" % (k, events(e.out)[:12], want[:12])))
+    # 3b. the input ends in the MIDDLE of a form (a seeded byte inside form k+1): everything before it
+    # is evaluated as usual, the torn form may give an error or - if the cut fell behind its last
+    # token - its own value, nothing else; the loop ends normally
+    if s.get("midcut") is not None and len(forms) >= 2:
+        k = s["midcut"][0] % (len(forms) - 1) + 1		# forms[:k] are complete, forms[k] is torn
+        pre = sessgen.script_of(forms[:k], dialect, True)
+        tail = forms[k].text
+        cutpos = len(pre.encode()) + 1 + s["midcut"][1] % max(1, len(tail.encode()) - 1)
+        e = run_loop(binfo, scratch, script, dialect, s["plan"], s["chunks"], eof=cutpos, files=fl)
+        acct(e)
+        if not bad_end(e, "input torn inside form %d" % (k + 1)):
+            want = expected_events(forms[:k])
+            got = events(e.out)
+            extra = got[len(want):] if got[:len(want)] == want else None
+            if want and want[-1] == "E" and got[:len(want) - 1] == want[:-1] and extra is None:
+                extra = got[len(want) - 1:]
+            # (a torn output statement may still be a complete, shorter statement: its marker with part of
+            # its value, without the newline - whatever follows on that line belongs to it)
+            mk = forms[k].marker if forms[k].good and forms[k].marker else None
+            if extra is None or any(not (x == "E" or (mk and x.startswith(mk))) for x in extra) or len(extra) > 2:
+                viol.append(("torn-form", "input torn inside form %d: events %s, expected %s plus at most an error or the torn form's own value" % (k + 1, got[:14], want[:14])))
     return viol, info
 
 
@@ -314,7 +336,7 @@ def main(argv):
                     s2 = s3
             rp = vsim.write_replay(PID, "seed%d-s%d" % (seed, i), {
                 "property": PID, "seed": seed, "key": key, "detail": detail, "source_key": binfo["key"],
-                "session": dict(dict((k, s2.get(k)) for k in ("dialect", "special", "chunks", "plan", "final_nl", "cut")),
+                "session": dict(dict((k, s2.get(k)) for k in ("dialect", "special", "chunks", "plan", "final_nl", "cut", "midcut")),
                                 files=dict((k, v.decode("latin-1") if isinstance(v, bytes) else v) for k, v in (s2.get("files") or {}).items())),
                 "forms": [f.to_json() for f in s2["forms"]],
                 "script": sessgen.script_of(s2["forms"], s2["dialect"], s2["final_nl"]),
